@@ -10,6 +10,7 @@ mod vdm;
 mod http;
 mod locks;
 mod reader;
+mod conc;
 mod obs;
 mod prng;
 mod proto;
@@ -97,6 +98,8 @@ fn main() {
         "c16" => timer::run(&args, &mut model),
         "c17" => locks::run(&args, &mut model),
         "c04" => reader::run(&args, &mut model),
+        "c13" => conc::run_c13(&args, &mut model),
+        "c15" => conc::run_c15(&args, &mut model),
         f => {
             eprintln!("unknown family {}", f);
             std::process::exit(2);
